@@ -3,8 +3,10 @@
 
    Vocabulary (Model/Dag.v, Model/Invalidate.v): a loaded jugfile is [d : dag], the list of its
    task objects in creation order, each (hash, function name, hashes of its direct dependencies
-   as Task.dependencies() yields them); [wf_dag d]: dependencies are created before their
-   consumers and objects with equal hash have equal name and dependency set.  [depends_on d t c]:
+   as Task.dependencies() yields them).  Creation order need NOT be dependency order (a container
+   handed to a task may be filled with tasks afterwards).  [wf_dag d]: every dependency is a task
+   of the jugfile, objects with equal hash have equal name and dependency set, and the graph is
+   acyclic (a topological numbering below [length d] exists).  [depends_on d t c]:
    t = c or t depends on c through a chain of direct dependencies.  [m : fname -> bool] is the
    target matcher (any predicate on names).  [st : tid -> bool] is can_load, ANY store state.
    [cli_invalid] = the memoised depth-first search of InvalidateCommand.run; [shell_invalid] = the
@@ -87,15 +89,18 @@ Theorem C09_execute_completes : forall (d : dag) (st : store), wf_dag d ->
 Proof. exact exec_spec. Qed.
 Print Assumptions C09_execute_completes.
 
-(* the boolean checks the harness evaluates decide the propositions used above *)
-Theorem C09_checks_decide : forall (d : dag),
-  (wf_dagb d = true <-> wf_dag d) /\
-  (wf_dag d -> forall a c, depends_on_b d a c = true <-> depends_on d a c) /\
-  (forall st, closed_b d st = true <-> closed d st).
+(* the boolean checks the harness evaluates: [wf_dagb] is sound for [wf_dag] (it proposes a numbering
+   and checks it), [depends_on_b] and [closed_b] decide their propositions; graphs created in
+   dependency order (the common case) are well-formed *)
+Theorem C09_checks_sound : forall (d : dag),
+  (wf_dagb d = true -> wf_dag d) /\
+  (forall a c, depends_on_b d a c = true <-> depends_on d a c) /\
+  (forall st, closed_b d st = true <-> closed d st) /\
+  (ordered_dag d -> (forall n n', In n d -> In n' d -> agrees n' n) -> wf_dag d).
 Proof.
-  exact (fun d => conj (wf_dagb_spec d) (conj (fun W a c => depends_on_b_spec d a c W) (closed_b_spec d))).
+  exact (fun d => conj (wf_dagb_sound d) (conj (depends_on_b_spec d) (conj (closed_b_spec d) (ordered_wf d)))).
 Qed.
-Print Assumptions C09_checks_decide.
+Print Assumptions C09_checks_sound.
 
 (* non-vacuity: 1 = load(), 2 = f(1), 3 = f(1) written a second time (same hash 2), 4 = g(2),
    5 = h(1), 6 = g(4, 5), 7 = k().  Names: load = 10, f = 11, g = 12, h = 13, k = 14.
@@ -116,4 +121,19 @@ Example C09_nonvacuous :
   closed_b d st = true /\ closed_b d (cli_store d m st) = true /\
   exec_log d (cli_store d m st) = [2; 4; 6]%positive /\
   depends_on_b d 6%positive 1%positive = true /\ depends_on_b d 5%positive 2%positive = false.
+Proof. vm_compute. repeat split; reflexivity. Qed.
+
+(* non-vacuity, creation order <> dependency order:
+     results = {}; merged = merge(results); results[s] = analyse(load(s)) (twice); report = render(merged)
+   1 = merge (depends on 3 and 5, created AFTER it), 2, 4 = load, 3, 5 = analyse, 6 = render.
+   Names merge = 10, load = 11, analyse = 12, render = 13.  Target "analyse": {1, 3, 5, 6}. *)
+Example C09_nonvacuous_late_dependencies :
+  let d : dag := [(1, 10, [3; 5]); (2, 11, []); (3, 12, [2]); (4, 11, []); (5, 12, [4]); (6, 13, [1])]%positive in
+  let m : matcher := fun nm => Pos.eqb nm 12 in
+  let st := st_of [1; 2; 3; 4; 5; 6]%positive in
+  ordered_dagb d = false /\ wf_dagb d = true /\
+  cli_invalid d m = [1; 3; 5; 6]%positive /\
+  shell_invalid d 3%positive = [3; 1; 6]%positive /\
+  filter (cli_store d m st) [1; 2; 3; 4; 5; 6]%positive = [2; 4]%positive /\
+  exec_log d (cli_store d m st) = [3; 5; 1; 6]%positive.
 Proof. vm_compute. repeat split; reflexivity. Qed.
